@@ -507,6 +507,11 @@ def main(argv):
             d = fields(rust_emit(h, [("replay", rp["program"], rp.get("args", []))])[0])
             print("implementation now returns (original/reloaded/re-reloaded/third re-emission):", d["R"])
             ok = all(len(r) == 4 and r[0] == r[1] == r[2] == r[3] for r in d["R"]) and bool(d["R"])
+            if rp.get("family") in ("EMIT-KEYS", "EMIT-BINDERS"):
+                # closed by construction: must also be accepted as an output and emitted as text that parses as a function
+                print("accepted as an output (validate_portable_value):", d.get("PORT"), "| emitted:",
+                      c.unhex(d["SRC"]) if d.get("SRC", "-") != "-" else None, "| parses as:", d.get("AST1", "-")[:40])
+                ok = ok and d.get("PORT") == "1" and d.get("AST1", "REJECT").startswith("(ELam")
             return 0 if ok else 1
         return 0
 
@@ -914,6 +919,10 @@ def main(argv):
                                 "emitted": c.unhex(parsed[i].get("SRC", "")) if parsed[i].get("SRC", "-") != "-" else None,
                                 "results": parsed[i]["R"]} for i in samp]
     res.coverage["traces_validated_against_impl"] = stats["ast_agree"] + beh_agree
+    # --- (v) EMIT-KEYS / EMIT-BINDERS (checks/c05_binders.py): keys over the identifier boundary at every emission site;
+    # the function's own parameter re-bound by an inner binder and used around it, under every defining environment
+    import c05_binders
+    c05_binders.run(sys.modules[__name__], h, cli, res, rng, tier, state, open_ids, want)
 
     # --- known findings
     wid = {"F10": ["F10"], "F11": ["F11", "F11b"], "F15": ["F15"], "F50": ["F50"], "F8": ["F8"], "F12-F14": ["F12-F14"],
